@@ -403,11 +403,39 @@ def payload_canon(md):
         return None
 
 
+_SHADOWED = False
+
+
+def shadow_warmup():
+    """Once per worker process, before its first verification: one successful signature check, in each format, with
+    *another* key under the key id of every key of the pool. A key id is a label chosen by whoever writes the key
+    dictionary; nothing ties it to the key material. Code that keeps anything per key id between calls (a cache of
+    parsed keys, a memo of results) then answers the checks that follow from the wrong key, and every scenario of the
+    shard shows it."""
+    global _SHADOWED  # pylint: disable=global-statement
+    if _SHADOWED:
+        return
+    _SHADOWED = True
+    from securesystemslib.signer import CryptoSigner
+    from in_toto.models.metadata import Metablock, Envelope
+    from in_toto.models.link import Link
+    for k in pool():
+        twin = CryptoSigner.generate_ed25519(keyid=k.keyid)
+        pub = twin.public_key.to_dict()
+        pub["keyid"] = k.keyid
+        for fmt in ("metablock", "dsse"):
+            link = Link(name="warm-up")
+            md = Metablock(signed=link) if fmt == "metablock" else Envelope.from_signable(link)
+            md.create_signature(twin)
+            md.verify_signature(pub)
+
+
 def _impl_verify(scn, root, repeat):
     import in_toto.verifylib as vl
     from in_toto.models.metadata import Metadata
     import attr
     logging.getLogger("in_toto").setLevel(logging.CRITICAL)
+    shadow_warmup()
     os.chdir(os.path.join(root, "product"))
     try:
         # (C01 in-memory family: an object built / edited by the caller instead of a fresh load)
